@@ -429,6 +429,36 @@ fn corpus_cases(ctx: &Ctx, rng: &mut Rng) -> Vec<Case> {
             out.push(Case::Bytes("corpus/hostile-dist-header".into(), d));
         }
     }
+    // valid maps keyed by sibling values (numbers of every representation that are neighbours or far apart in
+    // digit count, identifiers one field apart, lists differing in their tails, non-finite floats ...): the
+    // decoders order and hash keys while building a map, so this code runs on untrusted input too
+    {
+        use crate::genr::near::{Family, Twins, families, sibling_maps};
+        use crate::refmodel::val::Val;
+        let mut fams = families(&mut grng);
+        fams.push(Family {
+            name: "num:non-finite",
+            members: [0x7ff8_0000_0000_0000u64, 0xfff8_0000_0000_0000, 0x7ff8_0000_0000_0001, 0x7ff0_0000_0000_0001, 0x7ff0_0000_0000_0000, 0xfff0_0000_0000_0000, 0x3ff0_0000_0000_0000, 0x7fef_ffff_ffff_ffff, 0x0000_0000_0000_0001]
+                .iter()
+                .map(|b| Val::Float(*b))
+                .chain([Val::int(0), Val::int(1), Val::Int(crate::refmodel::val::Int::pow2(1024)), Val::Int(crate::refmodel::val::Int::pow2(1023)), Val::Int(crate::refmodel::val::Int::pow2(2000))])
+                .collect(),
+        });
+        let maps = sibling_maps(&fams, Twins::Keep, !ctx.quick());
+        for (i, (_, v)) in maps.iter().enumerate() {
+            let mut ch = RandomChooser { rng, legacy_bias: 30, taken: vec![] };
+            if let Ok(b) = ref_encode(v, &mut ch, &opts) {
+                if b.len() > 8192 {
+                    continue;
+                }
+                if i % 5 == 0 {
+                    let donor = &valid[i % valid.len()];
+                    out.push(Case::Bytes("siblings/mutated".into(), mutate(rng, &b, donor)));
+                }
+                out.push(Case::Bytes("siblings/valid-map".into(), b));
+            }
+        }
+    }
     // random bytes
     for _ in 0..ctx.pick(3000usize, 200_000usize) {
         let n = rng.below(48);
